@@ -187,7 +187,10 @@ fn peephole2_helper(lines: &[Line], index: usize, ret: &mut Vec<Line>) -> bool {
                         true
                     }
                     // LOAD(X) <ANY>(_, _, TOP) -> __(_, _, X)
-                    (Instr::LoadOffset(offset), instr2) if instr2.second_arg_is_top() => {
+                    // (only if X fits a register operand; the same goes for the two rules below)
+                    (Instr::LoadOffset(offset), instr2)
+                        if instr2.second_arg_is_top() && Reg::offset_is_encodable(offset) =>
+                    {
                         ret.push(Line::Instr {
                             instr: instr2.clone().replace_second_arg(Reg::Offset(offset)),
                             lineno,
@@ -198,7 +201,8 @@ fn peephole2_helper(lines: &[Line], index: usize, ret: &mut Vec<Line>) -> bool {
                     }
                     // LOAD(X) __(_, TOP, Offset(Y) | Imm) -> __(_, X, Offset(Y) | Imm)
                     (Instr::LoadOffset(offset), instr2)
-                        if instr2.first_arg_is_top_and_second_arg_is_offset_or_imm() =>
+                        if instr2.first_arg_is_top_and_second_arg_is_offset_or_imm()
+                            && Reg::offset_is_encodable(offset) =>
                     {
                         ret.push(Line::Instr {
                             instr: instr2.clone().replace_first_arg(Reg::Offset(offset)),
@@ -209,7 +213,9 @@ fn peephole2_helper(lines: &[Line], index: usize, ret: &mut Vec<Line>) -> bool {
                         true
                     }
                     // __(TOP, R1, R2) STORE(N) -> __(N, R1, R2)
-                    (instr1, Instr::StoreOffset(offset)) if instr1.dest_is_top() => {
+                    (instr1, Instr::StoreOffset(offset))
+                        if instr1.dest_is_top() && Reg::offset_is_encodable(*offset) =>
+                    {
                         ret.push(Line::Instr {
                             instr: instr1.replace_dest(Reg::Offset(*offset)),
                             lineno,
